@@ -1248,8 +1248,16 @@ def _run_allclose(
                 and got_arr.shape[:-1] == expected_arr.shape
                 and got_arr.shape[-1] == 2
             ):
-                got_arr = got_arr[..., 0] + 1j * got_arr[..., 1]
-                got_arr = got_arr.astype(expected_arr.dtype, copy=False)
+                # Assemble the complex values component-wise: ``re + 1j * im`` turns an
+                # infinite imaginary part into a NaN real part, and casting down to the
+                # expected dtype here would round the model's values before the comparison.
+                packed = np.empty(
+                    got_arr.shape[:-1],
+                    dtype=np.result_type(got_arr.dtype, np.complex64),
+                )
+                packed.real = got_arr[..., 0]
+                packed.imag = got_arr[..., 1]
+                got_arr = packed
 
         if expected_arr.shape != got_arr.shape:
             return (
@@ -1259,10 +1267,11 @@ def _run_allclose(
                 ),
             )
 
+        lhs_arr, rhs_arr = _comparison_operands(expected_arr, got_arr)
         if _is_floating_dtype(expected_arr) or _is_floating_dtype(got_arr):
             if not np.allclose(
-                expected_arr,
-                got_arr.astype(expected_arr.dtype, copy=False),
+                lhs_arr,
+                rhs_arr,
                 rtol=rtol,
                 atol=atol,
                 equal_nan=True,
@@ -1274,9 +1283,7 @@ def _run_allclose(
                     f"Output {idx} mismatch (max abs diff {max_diff}, rtol={rtol}, atol={atol})",
                 )
         else:
-            if not np.array_equal(
-                expected_arr, got_arr.astype(expected_arr.dtype, copy=False)
-            ):
+            if not np.array_equal(lhs_arr, rhs_arr):
                 return (False, f"Output {idx} mismatch (non-floating tensors differ)")
 
     return True, "Outputs match within tolerance."
@@ -1377,6 +1384,27 @@ def _to_numpy_output(value: Any) -> np.ndarray:
     if isinstance(value, np.ndarray):
         return value
     return cast(np.ndarray, np.asarray(value))
+
+
+def _comparison_operands(
+    expected: np.ndarray, got: np.ndarray
+) -> Tuple[np.ndarray, np.ndarray]:
+    """Bring both arrays to one dtype without changing any value of ``got``.
+
+    Casting the ONNX Runtime output to the expected dtype *before* comparing hides
+    real differences (int64 ``x + 2**32`` wraps to int32 ``x``, ``5.7`` truncates to
+    ``5``, ``2`` becomes ``True``, ``1e300`` overflows to a float32 ``inf``). Only a
+    value-preserving cast is applied; otherwise both sides are promoted.
+    """
+    if got.dtype == expected.dtype:
+        return expected, got
+    try:
+        if np.can_cast(got.dtype, expected.dtype, casting="safe"):
+            return expected, got.astype(expected.dtype)
+        common = np.result_type(expected.dtype, got.dtype)
+        return expected.astype(common), got.astype(common)
+    except TypeError:  # dtypes without a common numpy type (e.g. extension dtypes)
+        return expected, got.astype(expected.dtype, copy=False)
 
 
 def _is_floating_dtype(arr: np.ndarray) -> bool:
